@@ -7,6 +7,7 @@ import (
 	"bytes"
 	"encoding/json"
 	"fmt"
+	"github.com/storacha/go-ucanto/core/schema/options"
 	"io"
 	"sort"
 	"strings"
@@ -45,6 +46,9 @@ type RSpec struct {
 	RanKind string   `json:"ran"`  // "inv" | "link"
 	Alter   string   `json:"alter"`
 	Reader  string   `json:"reader"` // untyped | typed | rebind
+	// Effects: (C18 programs) the effects are honoured, built the way server.Run builds them
+	// (fx.NewEffects, then receipt.WithFork / WithJoin)
+	Effects bool `json:"effects,omitempty"`
 }
 
 var rcptAlter = []string{"none", "out-value", "out-flip", "ran", "fork-add", "fork-drop", "join", "meta", "iss", "iss-drop", "prf", "sig-flip", "sig-code", "other-key"}
@@ -56,7 +60,7 @@ func genC10(cfg Config, emit Emit) error {
 	}
 	r := cfg.Rng
 	for i := 0; i < n; i++ {
-		s := RSpec{OK: r.Intn(3) != 0, RanKind: []string{"inv", "inv", "link"}[r.Intn(3)], Reader: []string{"untyped", "typed", "rebind"}[i%3]}
+		s := RSpec{OK: r.Intn(3) != 0, RanKind: []string{"inv", "inv", "link"}[r.Intn(3)], Reader: []string{"untyped", "typed", "rebind", "typedopt"}[i%4]}
 		switch r.Intn(8) {
 		case 0:
 			s.Key = fmt.Sprintf("rsa%d", r.Intn(2))
@@ -72,7 +76,7 @@ func genC10(cfg Config, emit Emit) error {
 			s.Value = tvMap([]KV{{"n", tvInt(int64(r.Intn(1000)))}, {"status", tvStr([]string{"done", "", "ünï"}[r.Intn(3)])}})
 		}
 		for f := r.Intn(3); f > 0; f-- {
-			s.Forks = append(s.Forks, []string{"link", "inv"}[r.Intn(2)])
+			s.Forks = append(s.Forks, []string{"link", "inv", "link", "inv", "dup"}[r.Intn(5)])
 		}
 		s.Join = []string{"", "link", "inv"}[r.Intn(3)]
 		if r.Intn(2) == 0 {
@@ -135,6 +139,15 @@ func (t typedOK) ToIPLD() (ipld.Node, error) {
 	return tvMap([]KV{{"n", tvInt(t.N)}, {"status", tvStr(t.Status)}}).node()
 }
 
+type tagT struct{ S string }
+
+type typedOKOpt struct {
+	N      int64
+	Status tagT
+}
+
+var typedOptSchema = []byte("type Result union {\n | TOk \"ok\"\n | TErr \"error\"\n} representation keyed\ntype Tag string\ntype TOk struct { n Int\n status Tag }\ntype TErr struct { n Int\n status Tag }")
+
 var typedSchema = []byte("type Result union {\n | TOk \"ok\"\n | TErr \"error\"\n} representation keyed\ntype TOk struct { n Int\n status String }\ntype TErr struct { n Int\n status String }")
 
 func nodeBytes(n datamodel.Node) []byte {
@@ -180,7 +193,10 @@ func execRcpt(a []string) Result {
 	var forkLinks []string
 	var forks []fx.Effect
 	for i, f := range s.Forks {
-		if f == "inv" {
+		if f == "dup" && len(forks) > 0 { // the same effect listed again
+			forks = append(forks, forks[len(forks)-1])
+			forkLinks = append(forkLinks, forkLinks[len(forkLinks)-1])
+		} else if f == "inv" {
 			fi := mkInv(fmt.Sprintf("fork%d", i))
 			forks = append(forks, fx.FromInvocation(fi))
 			forkLinks = append(forkLinks, "inv:"+fi.Link().String())
@@ -346,6 +362,26 @@ func execRcpt(a []string) Result {
 			} else {
 				a.out = nodeBytes(x)
 			}
+			fill(r.Ran().Link(), r.Issuer(), r.Fx(), r.Meta(), r.Proofs())
+		case "typedopt":
+			// a typed reader whose schema has a named string type bound to a Go type through a converter option
+			rdr, e2 := receipt.NewReceiptReader[typedOKOpt, typedOKOpt](typedOptSchema,
+				options.NamedStringConverter("Tag", func(s string) (tagT, error) { return tagT{s}, nil }, func(t tagT) (string, error) { return t.S, nil }))
+			if e2 != nil {
+				return a, e2
+			}
+			r, err := rdr.Read(rl, back.Blocks())
+			if err != nil {
+				return a, err
+			}
+			o, x := result.Unwrap(r.Out())
+			v := o
+			a.okSide = true
+			if !s.OK {
+				v, a.okSide = x, false
+			}
+			n, _ := typedOK{N: v.N, Status: v.Status.S}.ToIPLD()
+			a.out = nodeBytes(n)
 			fill(r.Ran().Link(), r.Issuer(), r.Fx(), r.Meta(), r.Proofs())
 		default:
 			var r receipt.Receipt[typedOK, typedOK]
